@@ -404,7 +404,7 @@ def rm_haplotype_mapping(ctx):
     from ..interp import with_cgranges
     r, repo = ctx.r, ctx.repo
     q = "gene.collections:AnnotationCollection._associate_intervals_with_variant_intervals"
-    fn = repo.fn(q)
+    fn = repo.where(q)  # (label: the association is asked through AnnotationCollection's constructor)
     members = [("g1", [(4, 9), (12, 20)], "PLUS"), ("g2", [(22, 30)], "MINUS"), ("g3", [(31, 36)], "PLUS")]
     vcs = [("v1", [(10, 11, "T")]), ("v2", [(14, 15, "G"), (24, 25, "C")]), ("v3", [(36, 37, "A")]), ("v4", [(1, 2, "C")])]
     answers = {}
